@@ -14,6 +14,9 @@ the explicit call contract `Contract` (a structure parameter, not an axiom).
 -/
 import Proofs.ImplV2Lists
 import Proofs.ZlibLoop
+import Proofs.ImplV1Lists
+import Proofs.ImplV1Beat
+import Proofs.DecodeSteps
 
 namespace EngineModel.Properties.C05
 open EngineModel EngineModel.Codec EngineModel.V2 EngineModel.Impl.V2
@@ -89,5 +92,93 @@ theorem C05_unz_safe (buf : Bytes) (u : Ub) : unz buf ≠ .ub u := by
     cases EngineModel.Zlib.inflate (buf.drop 4) with
     | none => simp
     | some p => simp
+
+/-! ## schema 1.x payload decoders: no undefined behaviour on any input
+
+The Model decoders of `Impl.V1` read through the same cursor monad (every read past the buffer
+is `ub oob_read`; the label `assign`, the `ptr += 3` / `ptr += 6` over the maximum entry are
+`takeN`).  Five of them equal the Spec's verdict on every byte string (`Proofs/ImplV1*.lean`), the
+beat-data decoder does so outside one explicitly characterised family; in all cases the outcome is
+a value or `invalid_argument` — in particular the `runtime_error` "internal error" branches of the
+C++ are unreachable. -/
+section V1
+open EngineModel.V1Proofs
+
+theorem C05_v1_track_safe (bs : Bytes) (u : Ub) : Impl.V1.decodeTrack bs ≠ .ub u := by
+  rw [V1Proofs.decodeTrack_eq]; exact ofOpt_never_ub _ _
+theorem C05_v1_ovw_safe (bs : Bytes) (u : Ub) : Impl.V1.decodeOvw bs ≠ .ub u := by
+  rw [V1Proofs.decodeOvw_eq]; exact ofOpt_never_ub _ _
+theorem C05_v1_hires_safe (bs : Bytes) (u : Ub) : Impl.V1.decodeHires bs ≠ .ub u := by
+  rw [V1Proofs.decodeHires_eq]; exact ofOpt_never_ub _ _
+theorem C05_v1_cues_safe (bs : Bytes) (u : Ub) : Impl.V1.decodeCues bs ≠ .ub u := by
+  rw [V1Proofs.decodeCues_eq]; exact ofOpt_never_ub _ _
+theorem C05_v1_loops_safe (bs : Bytes) (u : Ub) : Impl.V1.decodeLoops bs ≠ .ub u := by
+  rw [V1Proofs.decodeLoops_eq]; exact ofOpt_never_ub _ _
+theorem C05_v1_beat_safe (bs : Bytes) (u : Ub) : Impl.V1.decodeBeat bs ≠ .ub u :=
+  decodeBeat_safe bs u
+
+/-- The only exception class of the 1.x payload decoders is `invalid_argument`. -/
+theorem C05_v1_throw_class (bs : Bytes) (e : Exn) :
+    (Impl.V1.decodeTrack bs = .throw e ∨ Impl.V1.decodeBeat bs = .throw e ∨ Impl.V1.decodeOvw bs = .throw e ∨
+      Impl.V1.decodeHires bs = .throw e ∨ Impl.V1.decodeCues bs = .throw e ∨ Impl.V1.decodeLoops bs = .throw e) →
+    e = .invalid_argument := by
+  rw [V1Proofs.decodeTrack_eq, V1Proofs.decodeOvw_eq, V1Proofs.decodeHires_eq, V1Proofs.decodeCues_eq,
+    V1Proofs.decodeLoops_eq]
+  rintro (h | h | h | h | h | h)
+  · exact ofOpt_throw h
+  · exact decodeBeat_throw bs e h
+  · exact ofOpt_throw h
+  · exact ofOpt_throw h
+  · exact ofOpt_throw h
+  · exact ofOpt_throw h
+
+/-- The cursor monad does have `ub` outcomes (the statements are not vacuous): the unguarded loop
+body of the pre-712766a loops decoder reads the label length past the end. -/
+example : Cur.rd Codec.u8 [] = .ub .oob_read := rfl
+
+end V1
+
+/-! ## step bound: no embedded count can make a decoder spin
+
+Termination is structural (`forN` recurses on the count); the content is the bound.  `Proofs/DecodeSteps.lean`
+exposes, for every count-prefixed loop, the loop inside the real decoder Model (`*_shape`: decoder =
+`if guards then forN body count … else throw`), instruments `forN` with a tick per body run
+(`forNTicks`, whose first component IS `forN` and whose second is `forNIters`), and bounds the total
+number of loop-body executions `iters… bs` of each decoder by the input length divided by the minimum
+entry size.  Each body execution performs a bounded number of primitive reads (≤ 7 for a loop entry,
+≤ 4 for a cue, 4 for a marker, 3 / 6 for a waveform entry); both `decodeTrack`s and the 2.x `decodeOvw`
+have no loop at all. -/
+section Steps
+open EngineModel.Steps
+
+theorem C05_decode_steps (bs : Bytes) :
+    itersCuesV2 bs ≤ bs.length / 13 ∧ itersLoopsV2 bs ≤ bs.length / 23 ∧ itersBeatV2 bs ≤ bs.length / 24 ∧
+    itersCuesV1 bs ≤ bs.length / 13 ∧ itersLoopsV1 bs ≤ bs.length / 23 ∧ itersBeatV1 bs ≤ bs.length / 24 ∧
+    itersOvwV1 bs ≤ bs.length / 3 ∧ itersHiresV1 bs ≤ bs.length / 6 :=
+  ⟨decode_steps_v2_cues bs, decode_steps_v2_loops bs, decode_steps_v2_beat bs, decode_steps_v1_cues bs,
+   decode_steps_v1_loops bs, decode_steps_v1_beat bs, decode_steps_v1_ovw bs, decode_steps_v1_hires bs⟩
+
+/-- The 1.x beat-data decoder never reads more than 2 × 32768 markers, whatever the input length. -/
+theorem C05_decode_steps_v1_beat_abs (bs : Bytes) : itersBeatV1 bs ≤ 65536 := decode_steps_v1_beat_abs bs
+
+/-- The counted quantity is the loop of the real decoder: the instrumented loop returns exactly what
+`forN` returns, and its tick count is `forNIters`, which never exceeds the count. -/
+theorem C05_decode_steps_faithful {α} (body : Cur α) (n : Nat) (bs : Bytes) :
+    (forNTicks body n bs).1 = Cur.forN body n bs ∧ (forNTicks body n bs).2 = forNIters body n bs ∧
+    forNIters body n bs ≤ n :=
+  ⟨forNTicks_fst body n bs, forNTicks_snd body n bs, forNIters_le body n bs⟩
+
+/-- …and the decoders are that loop behind their guards (two instances; the others are in
+Proofs/DecodeSteps.lean: `decodeCues_shape`, `decodeGrid_shape`, `decodeGrid1_shape`, …). -/
+theorem C05_decode_steps_shape_v2_loops (bs : Bytes) : Impl.V2.decodeLoops bs =
+    if loopsEntered bs then
+      ((Cur.forN Impl.V2.decodeLoop (loopsCount bs) >>= fun ls => (do let extra ← Cur.rest; pure (ls, extra)))
+        (bs.drop 8)).bind (fun p => .ok p.1)
+    else .throw .invalid_argument := decodeLoops_shape bs
+
+/-- non-vacuity: a count of 2^61 in an 8-byte loops payload is stopped by the guard, zero iterations -/
+example : itersLoopsV2 [0, 0, 0, 0, 0, 0, 0, 0x20] = 0 := by decide
+
+end Steps
 
 end EngineModel.Properties.C05
